@@ -318,6 +318,9 @@ class ModelsMixin(object):
 
     def getitem(self, c, k):
         from .interp import SymSlice
+        from .seqs import SymDict
+        if isinstance(c, SymDict):
+            return c.get(self, k, _MISSING)
         if isinstance(c, SObj):
             m = self.class_lookup(c.cls, "__getitem__")
             if m is _MISSING:
@@ -427,6 +430,10 @@ class ModelsMixin(object):
         return SStr(z3.simplify(z3.SubString(term, it, 1)))
 
     def setitem(self, c, k, v):
+        from .seqs import SymDict
+        if isinstance(c, SymDict):
+            c.set(self, k, v)
+            return
         if isinstance(c, SObj):
             m = self.class_lookup(c.cls, "__setitem__")
             if m is _MISSING:
@@ -599,6 +606,12 @@ class ModelsMixin(object):
         return res
 
     def contains(self, container, item):
+        from .seqs import SymDict
+        from .interp import SymDictKeys
+        if isinstance(container, SymDictKeys):
+            container = container.d
+        if isinstance(container, SymDict):
+            return container.contains(self, item)
         if isinstance(container, SObj):
             m = self.class_lookup(container.cls, "__contains__")
             if m is _MISSING:
@@ -718,6 +731,14 @@ class ModelsMixin(object):
 
     # ================================================================ methods of symbolic values
     def call_sym_method(self, recv, name, args, kwargs):
+        from .seqs import SymDict
+        from .interp import SymDictKeys
+        if isinstance(recv, SymDict):
+            return self.symdict_method(recv, name, args, kwargs)
+        if isinstance(recv, SymDictKeys):
+            if name == "__contains__":
+                return recv.d.contains(self, args[0])
+            self.unsupported("dict_keys.%s on a symbolic dict" % name)
         if isinstance(recv, list) and name in self.CONTAINER_METHODS:
             return self.list_method(recv, name, args)
         if isinstance(recv, dict) and name in self.CONTAINER_METHODS:
@@ -871,9 +892,13 @@ class ModelsMixin(object):
             return SBool(z3.SuffixOf(str_term(args[0]), str_term(recv)))
         if name == "replace":
             old, new = args[0], args[1]
-            if not is_sym(old) and len(old) == 0:
+            if is_sym(old) or is_sym(new) or len(args) > 2:
+                self.unsupported("str.replace with symbolic pattern")
+            if len(old) == 0:
                 self.unsupported("replace of empty pattern")
-            self.unsupported("str.replace on symbolic data")
+            f = z3.Function("str_replace!%s!%s" % (old.encode().hex(), new.encode().hex()), STR, STR)
+            self.eng.externals_used.add("str.replace(%r, %r) on symbolic text (uninterpreted function)" % (old, new))
+            return SStr(f(str_term(recv)))
         if name == "join":
             items = self.iter_concrete(args[0])
             parts = []
@@ -900,15 +925,74 @@ class ModelsMixin(object):
             self.unsupported("str.isdigit on symbolic data")
         self.unsupported("str.%s on symbolic data" % name)
 
-    # ================================================================ symbolic sequences (hooks)
+    # ================================================================ symbolic dicts / sequences
+    def symdict_method(self, d, name, args, kwargs):
+        from .interp import SymDictKeys
+        if name == "keys":
+            return SymDictKeys(d)
+        if name == "update":
+            if args:
+                src = args[0]
+                if not isinstance(src, dict):
+                    self.unsupported("SymDict.update from a non-dict")
+                for k, v in src.items():
+                    d.set(self, k, v)
+            for k, v in kwargs.items():
+                d.set(self, k, v)
+            return None
+        if name == "pop":
+            return d.pop(self, args[0], args[1] if len(args) > 1 else _MISSING)
+        if name == "get":
+            return d.get(self, args[0], args[1] if len(args) > 1 else None)
+        if name == "__contains__":
+            return d.contains(self, args[0])
+        if name == "items" or name == "values":
+            if d.rest or d.sym:
+                self.unsupported("items()/values() of an instance dict with unknown entries")
+            return list(getattr(d.known, name)())
+        self.unsupported("dict.%s on an instance dict with unknown entries" % name)
+
     def sseq_getitem(self, s, k):
-        self.unsupported("indexing a symbolic sequence")
+        from .interp import SymSlice
+        if isinstance(k, (slice, SymSlice)):
+            self.unsupported("slice of a symbolic sequence")
+        i = self.norm_index(k, z3.Length(s.term), None)
+        it = i if not isinstance(i, int) else z3.IntVal(i)
+        return s.elem.materialize(self, z3.simplify(s.term[it]))
 
     def sseq_contains(self, s, item):
+        if isinstance(item, SObj) and item.ref is not None and s.elem.by_identity:
+            return SBool(z3.Contains(s.term, z3.Unit(item.ref)))
         self.unsupported("membership in a symbolic sequence")
 
     def sseq_method(self, s, name, args, kwargs):
+        if name == "append":
+            x = args[0]
+            if not isinstance(x, SObj):
+                self.unsupported("append of a non-object to a symbolic sequence")
+            r = s.elem.adopt(self, x)
+            old = SSeq(s.term, s.elem, s.struct)
+            s.term = z3.Concat(s.term, z3.Unit(r))
+            s.struct = ("snoc", old, x)
+            return None
+        if name == "extend":
+            src = args[0]
+            if isinstance(src, SSeq):
+                old = SSeq(s.term, s.elem, s.struct)
+                s.term = z3.Concat(s.term, src.term)
+                s.struct = ("concat", old, SSeq(src.term, src.elem, src.struct))
+                return None
+            for x in self.iter_concrete(src):
+                self.sseq_method(s, "append", [x], {})
+            return None
+        if name == "copy":
+            return SSeq(s.term, s.elem, s.struct)
+        if name == "__len__":
+            return self.length_of(s)
         self.unsupported("method %s of a symbolic sequence" % name)
+
+    def seq_assume_valid(self, term, elem):
+        return None
 
     # ================================================================ copy
     def clone(self, v, memo=None, deep=True):
@@ -920,9 +1004,21 @@ class ModelsMixin(object):
             memo[id(v)] = o
             for k, x in v.slots.items():
                 o.slots[k] = self.clone(x, memo) if deep else x
-            if v.idict is not None:
+            from .seqs import SymDict
+            if isinstance(v.idict, SymDict):
+                d = v.idict.copy()
+                d.known = {k: (self.clone(x, memo) if deep else x) for k, x in d.known.items()}
+                d.sym = [(k, (self.clone(x, memo) if deep else x)) for k, x in d.sym]
+                o.idict = d
+            elif v.idict is not None:
                 for k, x in v.idict.items():
                     o.idict[k] = self.clone(x, memo) if deep else x
+            o.ref = v.ref
+            o.frozen = v.frozen
+            return o
+        if isinstance(v, SSeq):
+            o = SSeq(v.term, v.elem, v.struct)
+            memo[id(v)] = o
             return o
         if isinstance(v, list):
             o = []
